@@ -86,13 +86,15 @@ type found struct {
 }
 
 var (
-	worker    string
-	world     string
-	prop      string
-	workers   int
-	scale     = 1
-	fresh     bool // one worker process per seed (no state carried between runs)
-	goraceEnv = "halt_on_error=0 atexit_sleep_ms=0 exitcode=0"
+	worker               string
+	world                string
+	prop                 string
+	workers              int
+	scale                = 1
+	fresh                bool // one worker process per seed (no state carried between runs)
+	racesNotJudged       bool
+	raceReportsNotJudged int
+	goraceEnv            = "halt_on_error=0 atexit_sleep_ms=0 exitcode=0"
 )
 
 func main() {
@@ -110,6 +112,7 @@ func main() {
 	flag.IntVar(&workers, "workers", runtime.NumCPU(), "parallel worker processes")
 	replay := flag.String("replay", "", "replay one file")
 	flag.BoolVar(&fresh, "fresh", false, "run every seed in its own worker process")
+	flag.BoolVar(&racesNotJudged, "races-not-judged", false, "race-detector reports are counted, not turned into verdicts (properties whose statement has no concurrency clause)")
 	rule := flag.String("rule", "", "evidence: generation rule text")
 	assume := flag.String("assume", "", "evidence: assumptions, '|' separated")
 	real := flag.String("real", "", "evidence: components running real code, '|' separated")
@@ -198,7 +201,7 @@ func main() {
 						news = true
 					}
 				}
-				if len(agg.batchRaces) > 0 {
+				if len(agg.batchRaces) > 0 && !racesNotJudged {
 					news = true
 				}
 				agg.mu.Unlock()
@@ -210,7 +213,15 @@ func main() {
 	}
 
 	// ---- race reports: re-attribute each racing seed in a fresh process ----
-	resolveRaces(agg)
+	if racesNotJudged {
+		if n := len(agg.batchRaces); n > 0 {
+			fmt.Printf("NOTE: %d race-detector report(s) in this exploration; this property's statement has no concurrency clause, they are counted and not judged\n", n)
+			raceReportsNotJudged = n
+		}
+		agg.batchRaces = nil
+	} else {
+		resolveRaces(agg)
+	}
 
 	// ---- verdicts ----
 	exit := 0
@@ -1091,29 +1102,30 @@ func writeEvidence(path, tier string, seed int64, a *agg, wall float64, nViol in
 		samples = append(samples, map[string]interface{}{"note": "no non-trivial run in this batch"})
 	}
 	cov := map[string]interface{}{
-		"evaluations":         a.runs,
-		"distinct_nontrivial": len(a.nontrivHashes),
-		"rule":                rule,
-		"samples":             samples,
-		"seeds":               fmt.Sprintf("%d..%d", a.seedLo, a.seedHi),
-		"runs_per_hour":       int64(float64(a.runs) / wall * 3600),
-		"sim_seconds":         float64(a.simTime) / 1e9,
-		"yields":              a.steps,
-		"task_switches":       a.switches,
-		"preemptions":         a.preempts,
-		"distinct_traces":     len(a.hashes),
-		"interleaving_pairs":  len(a.pairs),
-		"fault_counts":        faults,
-		"probes":              probes,
-		"operations":          ops,
-		"other_counters":      other,
-		"policies":            pol,
-		"sites_hit":           siteCov,
-		"max_tasks":           a.maxTasks,
-		"sim_deadlocks":       a.dead,
-		"components":          map[string]interface{}{"real": splitBar(real), "stub": splitBar(stub)},
-		"known_findings_seen": knownSeen,
-		"workers":             workers,
+		"evaluations":                     a.runs,
+		"distinct_nontrivial":             len(a.nontrivHashes),
+		"rule":                            rule,
+		"samples":                         samples,
+		"seeds":                           fmt.Sprintf("%d..%d", a.seedLo, a.seedHi),
+		"runs_per_hour":                   int64(float64(a.runs) / wall * 3600),
+		"sim_seconds":                     float64(a.simTime) / 1e9,
+		"yields":                          a.steps,
+		"task_switches":                   a.switches,
+		"preemptions":                     a.preempts,
+		"distinct_traces":                 len(a.hashes),
+		"interleaving_pairs":              len(a.pairs),
+		"fault_counts":                    faults,
+		"probes":                          probes,
+		"operations":                      ops,
+		"other_counters":                  other,
+		"policies":                        pol,
+		"sites_hit":                       siteCov,
+		"max_tasks":                       a.maxTasks,
+		"sim_deadlocks":                   a.dead,
+		"components":                      map[string]interface{}{"real": splitBar(real), "stub": splitBar(stub)},
+		"known_findings_seen":             knownSeen,
+		"race_reports_counted_not_judged": raceReportsNotJudged,
+		"workers":                         workers,
 	}
 	ev := map[string]interface{}{
 		"property_id": prop,
